@@ -219,6 +219,9 @@ def C09(F, rep, tier, cx):
     RF.S1e(F, rep, cx.FL)
     RF.S2S3(F, rep, cx.FL, {'S2', 'S3'})
     RF.S4(F, rep)
+    ws = cx.ws()
+    RP.K2s(F, rep, cx.R, ws)   # skipping an unknown object can put the get position ahead of the put position:
+    RP.K2u(F, rep, cx.R, ws)   # the producer's admission test must survive that, or everything behind the object is lost
 
 
 def C10(F, rep, tier, cx):
@@ -268,9 +271,11 @@ def C13(F, rep, tier, cx):
 def C14(F, rep, tier, cx):
     """D4 every serialised scalar has an initialiser; B6 every write source is object state; Z1 skipp writes zeroes"""
     RD.D4(F, rep)
+    RD.D6(F, rep)
     run_layout(F, rep, write_rules=('B6', 'B5', 'B2'), extra_classes=(FILESTAT,))
     RF.Z1(F, rep)
     RF.G1(F, rep)
+    RF.K11(F, rep, cx.R, cx.FL)   # "does not depend on timing": no worker decision on a racy snapshot
 
 
 def C16(F, rep, tier, cx):
@@ -287,6 +292,32 @@ def C17(F, rep, tier, cx):
     RD.D123(F, rep)
     RD.D5(F, rep, None)
     RD.D4(F, rep)
+    RD.D6(F, rep)
+
+
+def advisory_unreachable(F):
+    """thorough tier, C03/C10: codec-like structs that are not reachable from the File API (RestorePoints, RestorePoint, stand-alone
+    sub-structs) are analysed with the same rules; their findings are reported as advisory and never fail the check"""
+    import core
+    objs = set(object_classes(F)) | set(rules_layout.HEADER_CLASSES) | {FILESTAT}
+    rep = core.Report(F)
+    LR = LayoutRules(F, rep)
+    analysed = []
+    for name, r in sorted(F.records.items()):
+        if name in objs or r['abstract'] or not name.startswith('Vector::BLF::'):
+            continue
+        own = {m['name'] for m in r['methods']}
+        if not {'read', 'write'} <= own or any(f['t'] == 'std::mutex' for f in r['fields']) or name == FILE:
+            continue
+        try:
+            LR.check_write_side(name, {'B2', 'B6', 'L6'})
+            LR.check_read_side(name, {'B1', 'B5', 'L7'})
+            LR.check_roundtrip(name)
+            analysed.append(short(name))
+        except AnalysisBroken as ex:
+            analysed.append(short(name) + ' (not a codec: ' + str(ex)[:60] + ')')
+    return {'advisory_unreachable_code': {'classes': analysed, 'findings': [{'key': o['key'], 'site': o['site'], 'what': o['what'][:260]} for o in rep.failed()],
+                                          'note': 'not reachable from the File API; reported for information, never fails the check'}}
 
 
 ASSUME_THREADS = ['one application thread uses the File API', 'a session is opened with exactly one of in / out',
@@ -296,14 +327,14 @@ ASSUME_THREADS = ['one application thread uses the File API', 'a session is open
 PROPS = {
     'C01': dict(run=C01, level='other'),
     'C02': dict(run=C02, level='other'),
-    'C03': dict(run=C03, level='other'),
+    'C03': dict(run=C03, level='other', advisory=True),
     'C04': dict(run=C04, ir_crosscheck=True, level='other', assumptions=ASSUME_THREADS),
     'C05': dict(run=C05, level='other'),
     'C06': dict(run=C06, ir_crosscheck=True, level='other', assumptions=ASSUME_THREADS),
     'C07': dict(run=C07, ir_crosscheck=True, level='other', assumptions=ASSUME_THREADS),
     'C08': dict(run=C08, level='other'),
     'C09': dict(run=C09, level='other'),
-    'C10': dict(run=C10, ir_crosscheck=True, level='other'),
+    'C10': dict(run=C10, ir_crosscheck=True, level='other', advisory=True),
     'C11': dict(run=C11, ir_crosscheck=True, level='other', assumptions=ASSUME_THREADS),
     'C12': dict(run=C12, level='other'),
     'C13': dict(run=C13, ir_crosscheck=True, level='other'),
